@@ -744,6 +744,7 @@ fn registry(case: &Value) {
     let mut results = vec![];
     let mut copy_available: Option<Vec<String>> = None;
     let mut slice_all: Option<Vec<String>> = None;
+    let mut foreign_accepted: Option<Vec<String>> = None;
     match case["op"].as_str().unwrap() {
         "use" => results.push(reg.use_actor(target.as_ref())),
         "free" => results.push(reg.free_actor(&target)),
@@ -756,6 +757,10 @@ fn registry(case: &Value) {
             let mut slice = reg.deep_slice(|actor| keep.contains(actor.vehicle.dimens.get_vehicle_id().unwrap()));
             let mut all: Vec<String> = slice.all().map(|a| id_of(&a)).collect();
             all.sort();
+            // a slice must not know the actors that were sliced away: releasing one of them into a further slice is refused
+            let mut probe = reg.deep_slice(|actor| keep.contains(actor.vehicle.dimens.get_vehicle_id().unwrap()));
+            let foreign: Vec<String> = fleet.actors.iter().filter(|a| !keep.contains(&id_of(a))).filter(|a| probe.free_actor(a)).map(id_of).collect();
+            foreign_accepted = Some(foreign);
             results.push(slice.use_actor(target.as_ref()));
             let mut ids: Vec<String> = slice.available().map(|a| id_of(&a)).collect();
             ids.sort();
@@ -774,7 +779,8 @@ fn registry(case: &Value) {
     let mut available: Vec<String> = reg.available().map(|a| id_of(&a)).collect();
     available.sort();
     let next: Vec<Vec<String>> = (0..64).map(|_| reg.next().map(|a| id_of(&a)).collect()).collect();
-    println!("{}", serde_json::to_string(&json!({"results": results, "available": available, "next": next, "copy_available": copy_available, "slice_all": slice_all})).unwrap());
+    println!("{}", serde_json::to_string(&json!({"results": results, "available": available, "next": next, "copy_available": copy_available, "slice_all": slice_all,
+        "foreign_accepted": foreign_accepted})).unwrap());
 }
 
 /// One operation on a real `Tour` (C14): the tour is built through the public API from the label sequence of the case.
